@@ -14,6 +14,9 @@ CONSTANTS NApps,      \* number of applications (app k >= 2 is mounted once, ins
           RICH        \* TRUE: up to two fangs per application and local fangs; FALSE: at most one, no local fangs
 
 SegStr  == {<<"a">>, <<"b">>, <<"a", "b">>}
+\* alphabet with characters that sort below the separator `/` (configs replace SegStr by it: a sibling `a-b` of `a` comes
+\* before `a` in every byte order although `a-b` < `a/...`; a segment may not end with `-` or `.`)
+SegStrDash == {<<"a">>, <<"a", "-", "b">>, <<"a", ".", "b">>}
 Segs    == {SSeg(w) : w \in SegStr} \cup {PSeg}
 RoutesN == UNION {[1..n -> Segs] : n \in 0..MaxDepth}
 MountPres == UNION {[1..n -> Segs] : n \in 1..MaxDepth}
